@@ -40,6 +40,7 @@ from monitors import c03
 REPO = common.vbuild.REPO
 SRC = os.path.join(REPO, "src")
 
+HANDLES_REPLAY = True   # run(tier, replay) re-runs the saved scenarios under the asan esim and judges them
 WATCHDOG = 120
 HANG_FACTOR = int(os.environ.get("C10_HANG_FACTOR", "10"))     # second attempt before a hang is reported
 NAT = 24          # atoms of every synthetic system (components use 1..22, the controlled system 1..12)
@@ -681,12 +682,22 @@ def frame_of(err):
 
 
 def gdb_frame(exe, sp, wd, throw=False):
+    """backtrace of the fatal signal, or (throw=True) of the LAST exception thrown before the process ended"""
     env = dict(MYENV)
     env["ASAN_OPTIONS"] = "abort_on_error=1:detect_leaks=0:handle_segv=0:handle_sigfpe=0:handle_abort=0:handle_sigbus=0:" \
                           "allocator_may_return_null=0:max_allocation_size_mb=2000"
-    cmd = ["gdb", "-batch"] + (["-ex", "catch throw"] if throw else []) + ["-ex", "run", "-ex", "bt 40", "--args", exe, sp]
+    cmd = ["gdb", "-batch"] + (["-ex", "catch throw"] if throw else []) + ["-ex", "run", "-ex", "bt 40"]
+    if throw:
+        for _ in range(8):     # exceptions caught inside the library come first: keep the last stop
+            cmd += ["-ex", "continue", "-ex", "bt 40"]
+    cmd += ["--args", exe, sp]
     r = common.run_proc(cmd, timeout=600, env=env, cwd=wd)
-    return frame_of(r["out"] + "\n" + r["err"]), (r["out"] + r["err"])[-3000:]
+    txt = r["out"] + "\n" + r["err"]
+    if throw:
+        blocks = [b for b in re.split(r"\nCatchpoint \d+ \(exception thrown\)", txt) if re.search(r"^#\d+ ", b, re.M)]
+        if blocks:
+            txt = blocks[-1]
+    return frame_of(txt), txt[-3000:]
 
 
 PARSER_PAT = re.compile(r'in parsing "|multiple values are not allowed|boolean values only|improper or missing value|'
